@@ -34,3 +34,11 @@ func init() {
 		fpSpec{"pkg/blobserver", "", "receive"}, fpSpec{"pkg/blobserver", "memHub", "NotifyBlobReceived"},
 	)
 }
+
+// C19, several sync destinations: the hub starts every receive hook before it looks at any error.
+func init() {
+	effectSpecs = append(effectSpecs,
+		effectSpec{"pkg/blobserver", "memHub", "NotifyBlobReceived", "hubNotifyEffects", []effPattern{
+			{"grp.Go", "gateStart"}, {"grp.Err", "gateDone"},
+		}, "C19"})
+}
